@@ -1790,6 +1790,10 @@ func (dsc *dataStoreCommand) lremove(keyName string, element string, count int) 
 		}
 	} else {
 		count = -count
+		if count < 0 {
+			// the most negative count has no positive counterpart: no limit
+			count = list.count
+		}
 		for item := list.tail; item != nil && count > removed; {
 			next := item.prev
 			if string(item.element) == element {
